@@ -3,7 +3,7 @@
 //! hardware-style walker and compared with the reference model, all frames are byte-diffed, the allocator log
 //! is judged and the translate* entry points are compared with the walker on a probe set.
 
-use crate::hwwalk::{self, Dump, Walk, ADDR, FLAGS, P, PS, U, W};
+use crate::hwwalk::{self, Dump, RNode, Walk, ADDR, FLAGS, P, PS, U, W};
 use crate::refmodel::{self, Applied, Exp, Fail, Model};
 use crate::simphys::{Arena, ArenaAlloc, Policy, Role, State};
 use crate::util::{catch_msg, Args, Report, Rng, J};
@@ -269,6 +269,8 @@ pub struct Env {
     /// properties de-synchronise the model: the history goes on with the model-independent monitors only
     pub focus: Vec<&'static str>,
     pub desynced: bool,
+    /// extended-domain history that also produces huge entries with unaligned addresses
+    pub corrupt: bool,
     pub ext: bool,
     pub fail_all_next: bool,
     pub step_props: std::cell::RefCell<Vec<String>>,
@@ -514,6 +516,7 @@ pub fn new_env(kind: Kind, r: &mut Rng, nframes: usize) -> Env {
         last_pf: std::cell::RefCell::new(Vec::new()),
         focus: Vec::new(),
         desynced: false,
+        corrupt: false,
         ext: false,
         fail_all_next: false,
         step_props: std::cell::RefCell::new(Vec::new()),
@@ -835,6 +838,91 @@ fn pre_snap_read(s: &Option<&Vec<u64>>, fi: usize, idx: usize) -> Option<u64> {
 }
 
 /// model-independent monitors only (after a violation of another property de-synchronised the model)
+/// leaf-position entries of the hierarchy as (virtual base, level, raw): present leaves, and non-present remnants that sit
+/// at level 1 or carry the page-size bit (guard pages). Second list: non-present entries at a table position (disabled
+/// parents), which a failing map_to may legitimately re-enable by adding the requested parent flags.
+fn raw_leaves(d: &hwwalk::Dump) -> (Vec<(u64, u8, u64)>, Vec<(u64, u8)>) {
+    fn rec(k: &BTreeMap<u16, RNode>, level: u8, base: u64, out: &mut Vec<(u64, u8, u64)>, off: &mut Vec<(u64, u8)>) {
+        for (&i, n) in k.iter() {
+            let b = base | ((i as u64) << (12 + 9 * (level as u32 - 1)));
+            match n {
+                RNode::Leaf { raw } => out.push((b, level, *raw)),
+                RNode::Garbage { raw } | RNode::Dangling { raw } => {
+                    if level == 1 || (level < 4 && raw & PS != 0) {
+                        out.push((b, level, *raw))
+                    } else {
+                        off.push((b, level))
+                    }
+                }
+                RNode::Table { kids, .. } => rec(kids, level - 1, b, out, off),
+            }
+        }
+    }
+    let (mut out, mut off) = (Vec::new(), Vec::new());
+    rec(&d.kids, 4, 0, &mut out, &mut off);
+    (out, off)
+}
+
+/// the recursive addresses of all tables of a hierarchy (from a raw dump), the level-4 table included
+fn recursive_table_vas(ri: u64, d: &Dump) -> BTreeSet<u64> {
+    fn rec(k: &BTreeMap<u16, RNode>, path: &mut Vec<u64>, ri: u64, out: &mut BTreeSet<u64>) {
+        for (&i, n) in k.iter() {
+            if let RNode::Table { kids, .. } = n {
+                path.push(i as u64);
+                // a table reached by `path` (len = 4 - its level) sits at R repeated (4 - len) times, then the path
+                let mut idx = vec![ri; 4 - path.len()];
+                idx.extend(path.iter().copied());
+                out.insert((idx[0] << 39) | (idx[1] << 30) | (idx[2] << 21) | (idx[3] << 12));
+                rec(kids, path, ri, out);
+                path.pop();
+            }
+        }
+    }
+    let mut out = BTreeSet::new();
+    out.insert((ri << 39) | (ri << 30) | (ri << 21) | (ri << 12));
+    rec(&d.kids, &mut Vec::new(), ri, &mut out);
+    out
+}
+
+/// C20, per call: is `acc` (a faulting address inside the recursive region) the recursive address of a table that the
+/// call has any business with? For an operation on one page those are the level-4 table and the level-3/2/1 tables on that
+/// page's path; for a range clean-up the tables whose span overlaps the range.
+fn recursive_access_expected(ri: u64, acc: u64, op: &Op) -> bool {
+    let ix = [(acc >> 39) & 0x1ff, (acc >> 30) & 0x1ff, (acc >> 21) & 0x1ff, (acc >> 12) & 0x1ff];
+    // leading recursive indices tell the level of the table; the rest is its path
+    let lead = ix.iter().take_while(|&&x| x == ri).count();
+    if lead == 4 {
+        return true; // the level-4 table itself
+    }
+    if lead == 0 {
+        return false;
+    }
+    let path: Vec<u64> = ix[lead..].to_vec(); // len 1 (a level-3 table) .. 3 (a level-1 table)
+    let shift = 12 + 9 * (4 - path.len() as u32);
+    let mut base = 0u64;
+    for (k, &p) in path.iter().enumerate() {
+        base |= p << (39 - 9 * k as u32);
+    }
+    let lo = base;
+    let hi = base | ((1u64 << shift) - 1);
+    let page_va = |v: u64| v & 0xffff_ffff_ffff;
+    match op {
+        Op::Map { page, .. } | Op::Unmap { page, .. } | Op::UpdateFlags { page, .. } | Op::SetParent { page, .. } | Op::TranslatePage { page, .. } => {
+            let v = page_va(*page);
+            v >= lo && v <= hi
+        }
+        Op::IdentityMap { frame, .. } => {
+            let v = page_va(*frame);
+            v >= lo && v <= hi
+        }
+        Op::CleanUp => true,
+        Op::CleanRange { start, end } => {
+            let (s, e) = (page_va(*start), page_va(*end));
+            s <= e && lo <= e && hi >= s
+        }
+    }
+}
+
 fn step_desynced(env: &mut Env, op: &Op, rep: &mut Report, r: &mut Rng, mon: &Monitors) -> StepResult {
     let mut st = env.arena.st();
     st.begin_call();
@@ -876,6 +964,17 @@ fn step_desynced(env: &mut Env, op: &Op, rep: &mut Report, r: &mut Rng, mon: &Mo
     if is_clean {
         check_cleanup(env, op, &pre_dump, &post, &log, rep);
     }
+    // model-free failure atomicity (C02): a call that reports an error - or only answers a question - leaves every
+    // leaf entry of the hierarchy, present or not, exactly as it was; whatever state the tables are in
+    if matches!(out, Out::MapErr(_) | Out::UnmapErr(_) | Out::FlagsErr(_) | Out::SetErr(_) | Out::TpErr(_) | Out::TpOk { .. }) {
+        let ((a, off), (b, _)) = (raw_leaves(&pre_dump), raw_leaves(&post));
+        let under_disabled = |va: u64| off.iter().any(|&(base, lvl)| va >> (12 + 9 * (lvl as u32 - 1)) == base >> (12 + 9 * (lvl as u32 - 1)));
+        let lost = a.iter().find(|x| !b.contains(x)).cloned();
+        let gained = b.iter().find(|x| !a.contains(x) && !under_disabled(x.0)).cloned();
+        if lost.is_some() || gained.is_some() {
+            viol(rep, env, "C02", format!("{}|{}|{}|leaf-entries-changed-by-a-call-that-reported-an-error", kname, opn, out.short()), op, vec![("entry_before(va,level,raw)", J::s(format!("{:x?}", lost))), ("entry_after(va,level,raw)", J::s(format!("{:x?}", gained)))]);
+        }
+    }
     if let Some(snap) = pre_snap {
         let mut st = env.arena.st();
         for i in 0..st.n() {
@@ -908,6 +1007,16 @@ fn step_desynced(env: &mut Env, op: &Op, rep: &mut Report, r: &mut Rng, mon: &Mo
             if !e.is_table {
                 viol(rep, env, "C09", format!("{}|{}|desynced|recursive-access-reached-non-table-memory", kname, opn), op, vec![("va", J::hex(e.va)), ("reached_frame", J::hex(e.phys))]);
                 break;
+            }
+        }
+        if let Some(ri) = env.rec {
+            if let Some(e) = log.iter().find(|e| !recursive_access_expected(ri as u64, e.va & 0xffff_ffff_f000, op)) {
+                viol(rep, env, "C20", format!("{}|{}|access-at-the-recursive-address-of-a-table-the-call-has-no-business-with", kname, opn), op, vec![("va", J::hex(e.va)), ("recursive_index", J::U(ri as u64))]);
+            }
+            let mut vas = recursive_table_vas(ri as u64, &pre_dump);
+            vas.extend(recursive_table_vas(ri as u64, &post));
+            if let Some(e) = log.iter().find(|e| !vas.contains(&e.va)) {
+                viol(rep, env, "C20", format!("{}|{}|desynced|access-at-address-that-is-not-the-recursive-address-of-a-table", kname, opn), op, vec![("va", J::hex(e.va)), ("recursive_index", J::U(ri as u64))]);
             }
         }
     }
@@ -1107,37 +1216,27 @@ fn step_synced(env: &mut Env, op: &Op, fail: Fail, rep: &mut Report, r: &mut Rng
         let log: Vec<PfEvent> = env.last_pf.borrow_mut().drain(..).collect();
         rep.count("softmmu_faults_resolved", log.len() as u64);
         let ri = env.rec.unwrap() as u64;
-        let mut table_vas: BTreeSet<u64> = BTreeSet::new();
-        table_vas.insert((ri << 39) | (ri << 30) | (ri << 21) | (ri << 12));
-        let mut add = |d: &Dump| {
-            fn rec(k: &BTreeMap<u16, hwwalk::RNode>, level: u8, path: &mut Vec<u64>, ri: u64, out: &mut BTreeSet<u64>) {
-                for (&i, n) in k.iter() {
-                    if let hwwalk::RNode::Table { kids, .. } = n {
-                        path.push(i as u64);
-                        // a table reached by `path` (len = 4 - its level) sits at R repeated (4 - len) times, then the path
-                        let mut idx = vec![ri; 4 - path.len()];
-                        idx.extend(path.iter().copied());
-                        out.insert((idx[0] << 39) | (idx[1] << 30) | (idx[2] << 21) | (idx[3] << 12));
-                        rec(kids, level - 1, path, ri, out);
-                        path.pop();
-                    }
-                }
-            }
-            let mut path = Vec::new();
-            rec(&d.kids, 4, &mut path, ri, &mut table_vas);
-        };
+        let mut table_vas = recursive_table_vas(ri, &post);
         if let Some(d) = pre_dump.as_ref() {
-            add(d);
+            table_vas.extend(recursive_table_vas(ri, d));
         }
-        add(&post);
+        let mut c20_path_reported = false;
         for e in log.iter() {
             if !e.is_table && !violated {
                 let what = if e.phys == u64::MAX { "recursive-access-through-non-present-entry" } else if e.in_arena { "recursive-access-reached-non-table-frame" } else { "recursive-access-reached-memory-outside-the-hierarchy" };
                 viol(rep, env, "C09", format!("{}|{}|{}|{}{}", kname, opn, cls_sig(&cls), what, if e.end_level >= 2 { "(through-huge-page-entry)" } else { "" }), op, vec![("va", J::hex(e.va)), ("reached_frame", J::hex(e.phys)), ("write", J::Bool(e.write)), ("state_class", J::s(cls.clone()))]);
                 violated = true;
             }
-            if !table_vas.contains(&e.va) && !violated {
+            // the two C20 clauses are judged from the raw dumps and the call's arguments alone, so also when another
+            // clause has already fired in this step; at most one report per step
+            if !table_vas.contains(&e.va) && !c20_path_reported {
+                c20_path_reported = true;
                 viol(rep, env, "C20", format!("{}|{}|access-at-address-that-is-not-the-recursive-address-of-a-table", kname, opn), op, vec![("va", J::hex(e.va)), ("recursive_index", J::U(ri))]);
+                violated = true;
+            }
+            if !recursive_access_expected(ri, e.va & 0xffff_ffff_f000, op) && !c20_path_reported {
+                c20_path_reported = true;
+                viol(rep, env, "C20", format!("{}|{}|access-at-the-recursive-address-of-a-table-the-call-has-no-business-with", kname, opn), op, vec![("va", J::hex(e.va)), ("recursive_index", J::U(ri))]);
                 violated = true;
             }
         }
@@ -1535,6 +1634,7 @@ pub fn run_history(kind: Kind, r: &mut Rng, rep: &mut Report, focus: &str, len: 
 pub fn run_history_ext(kind: Kind, r: &mut Rng, rep: &mut Report, focus: &str, len: usize, nframes: usize, enumerate_faults: bool, mon: &Monitors, ext: bool) {
     let mut env = new_env(kind, r, nframes);
     env.desynced = ext;
+    env.corrupt = ext && r.chance(1, 2);
     env.ext = ext;
     env.focus = match focus {
         "c01" => vec!["C01", "C11"],
@@ -1556,6 +1656,9 @@ pub fn run_history_ext(kind: Kind, r: &mut Rng, rep: &mut Report, focus: &str, l
                 Op::UpdateFlags { flags, .. } if r.chance(1, 3) => *flags &= !P,
                 // a parent entry is disabled (and usually re-enabled by a later set_flags / map_to)
                 Op::SetParent { flags, .. } if r.chance(1, 3) => *flags &= !P,
+                // a level-3 / level-2 entry that points to a table is declared a huge page (its "frame" is then only
+                // 4 KiB aligned); only the model-free monitors run in these histories
+                Op::SetParent { flags, n, .. } if env.corrupt && *n < 4 && r.chance(1, 2) => *flags |= 0x80,
                 _ => {}
             }
         }
